@@ -197,8 +197,11 @@ def gen_case(ch):
     if fam == 'annotations':
         items = []
         for _ in range(ch.int(0, 5)):
-            key = ch.pick(['id', 'title', 'description', 'id', 'title', 'author', 'Id'])
-            val = ch.pick(['p1', '"t"', '"d"', 'x', '""', '1', 'no'])
+            key = ch.pick(['id', 'title', 'description', 'id', 'title', 'description', 'title', 'author', 'Id'])
+            if ch.int(0, 5) == 0:
+                val = ch.pick(['p1', '"t"', '"d"', 'x', '""', '1', 'no'])  # any value, often of the wrong kind
+            else:
+                val = ch.pick(['p1', 'x', 'no', 'P_2']) if key.lower() == 'id' else ch.pick(['"t"', '"d"', '""', '"a # b"'])
             items.append(f'# {key}: {val}')
         body = ch.pick(['globally: no /a', 'after a as A: some b {x > @A.x} within 100 ms', 'globally: no', ''])
         text = ' '.join(items) + ' ' + body
